@@ -5,11 +5,12 @@
    Fam = "norm"    : the normalize_chunks grid  Shapes x per-axis spec menu x
                      Limits x Itemsizes x previous_chunks menu
    Fam = "rechunk" : every (source, target) pair of chunkings of every shape in
-                     Shapes (1-d extents 0..N are added when N >= 0; chunkings
-                     with one zero-width block are included for extents 1..Z)  *)
+                     Shapes, ZShapes and the 1-d extents 0..N (when N >= 0); for the
+                     1-d shapes and ZShapes, chunkings with one zero-width block are
+                     included on axes of extent 1..Z                              *)
 EXTENDS Rechunk
 
-CONSTANTS Fam, N, Z, Shapes, Limits, Itemsizes
+CONSTANTS Fam, N, Z, Shapes, ZShapes, Limits, Itemsizes
 
 VARIABLES case, exp, out
 
@@ -47,15 +48,17 @@ NormCases ==
           : sh \in Shapes }
 
 -----------------------------------------------------------------------------
-AxisChunkings(n) == Chunkings(n) \cup (IF n \in 1..Z THEN WithOneZero(n) ELSE {})
-RECURSIVE NDC(_)
-NDC(shape) == IF shape = <<>> THEN {<<>>}
-              ELSE { <<c>> \o r : c \in AxisChunkings(Head(shape)), r \in NDC(Tail(shape)) }
+AxisChunkings(n, z) == Chunkings(n) \cup (IF n \in 1..z THEN WithOneZero(n) ELSE {})
+RECURSIVE NDC(_, _)
+NDC(shape, z) == IF shape = <<>> THEN {<<>>}
+                 ELSE { <<c>> \o r : c \in AxisChunkings(Head(shape), z), r \in NDC(Tail(shape), z) }
 
-AllShapes == Shapes \cup (IF N >= 0 THEN { <<n>> : n \in 0..N } ELSE {})
+OneD == IF N >= 0 THEN { <<n>> : n \in 0..N } ELSE {}
+ZFor(sh) == IF sh \in ZShapes \cup OneD THEN Z ELSE 0
 
 RechunkCases ==
-  UNION { [fam: {"rechunk"}, shape: {sh}, chunks: NDC(sh), target: NDC(sh)] : sh \in AllShapes }
+  UNION { [fam: {"rechunk"}, shape: {sh}, chunks: NDC(sh, ZFor(sh)), target: NDC(sh, ZFor(sh))]
+          : sh \in Shapes \cup ZShapes \cup OneD }
 
 Cases == CASE Fam = "norm"    -> NormCases
            [] Fam = "rechunk" -> RechunkCases
